@@ -39,7 +39,7 @@ func init() {
 	registry["C14"] = func() *Property {
 		return &Property{
 			ID:          "C14",
-			Explanation: "A typestate of strings, decided statically. A styled text is in normal form when it consists of plain characters and line feeds with no attribute active, and of units `openers, one character, reset`; in such a text every character carries exactly the attributes of its own unit and nothing is active at a line feed or at the end, and concatenating, repeating, splitting or cutting normal-form texts at line feeds keeps the form. Decided: (R1) ansi.Apply, the only emitter of escape sequences, emits for every character other than a line feed exactly one opener carrying its style parameter, the character's own previous openers, the character and a reset, and emits line feeds bare: the style is added to each character's own unit and to nothing else; (R2) every function of packages ansi and style that returns a string returns normal form when its text parameters are in normal form: an automaton (closed, opened, lettered) is run over what each returned value is concatenated from — lexed constants, pieces of a match of ansi.expand (match[0] a whole unit, match[1] its openers, match[2] its character, a line feed only where the path knows it is none), parameters, slices of matches, results of the functions themselves and of form-preserving library calls (Repeat, Join/Split at line feeds, cuts at the index of a line feed, trimming of blanks) — with loop accumulators treated coinductively; (R3) outside package ansi no instruction looks inside a string that can carry styling (forward value flow from every ansi.Apply result to string slicing, indexing, conversion to runes or bytes, ranging, and character-editing library calls); (R4) escape bytes occur only in constants of package ansi. Together: every string the styling layer hands out is in normal form by induction over the calls. (R5) every style handed to ansi.Apply, directly or through the functions of the style layer that pass a parameter on as the start of it, starts with a constant SGR code that is neither empty nor the reset code (ESC[m and ESC[0m switch every attribute off). (R6 = C13.R0) a match of ansi.expand holds exactly one visible character, so a line feed is a match of its own and is never styled. (R7 = C19.R2) the configured colours are outputs of hexToAnsi. NOT decided: the terminal's interpretation of SGR parameters, that the style parameter is a valid SGR parameter (C01.R3 decides that it is built from constants and validated colours), and content preservation by the layout functions (C13).",
+			Explanation: "A typestate of strings, decided statically. A styled text is in normal form when it consists of plain characters and line feeds with no attribute active, and of units `openers, one character, reset`; in such a text every character carries exactly the attributes of its own unit and nothing is active at a line feed or at the end, and concatenating, repeating, splitting or cutting normal-form texts at line feeds keeps the form. Decided: (R1) ansi.Apply, the only emitter of escape sequences, emits for every character other than a line feed exactly one opener carrying its style parameter, the character's own previous openers, the character and a reset, and emits line feeds bare: the style is added to each character's own unit and to nothing else; (R2) every function of packages ansi and style that returns a string returns normal form when its text parameters are in normal form: an automaton (closed, opened, lettered) is run over what each returned value is concatenated from — lexed constants, pieces of a match of ansi.expand (match[0] a whole unit, match[1] its openers, match[2] its character, a line feed only where the path knows it is none), parameters, slices of matches, results of the functions themselves and of form-preserving library calls (Repeat, Join/Split at line feeds, cuts at the index of a line feed, trimming of blanks) — with loop accumulators treated coinductively; (R3) outside package ansi no instruction looks inside a string that can carry styling (forward value flow from every ansi.Apply result to string slicing, indexing, conversion to runes or bytes, ranging, and character-editing library calls); (R4) escape bytes occur only in constants of package ansi. Together: every string the styling layer hands out is in normal form by induction over the calls. (R5) every style handed to ansi.Apply, directly or through the functions of the style layer that pass a parameter on as the start of it, starts with a constant SGR code that is neither empty nor the reset code (ESC[m and ESC[0m switch every attribute off). (R6 = C13.R0) a match of ansi.expand holds exactly one visible character, so a line feed is a match of its own and is never styled. (R7 = C19.R2) the configured colours are outputs of hexToAnsi. (R8) attributes that are visible on blanks — underline, strike-through, background — are never applied, inside package style, to text that already holds the layout blanks of ansi.Indent / ansi.Pad. NOT decided: the terminal's interpretation of SGR parameters, that the style parameter is a valid SGR parameter (C01.R3 decides that it is built from constants and validated colours), and content preservation by the layout functions (C13).",
 			Assumptions: []string{"regexp semantics of ansi.expand's pattern (checked in C13.R0): a match is openers, one character, an optional reset", "string parameters of the ansi and style functions are texts in normal form or plain texts (by induction: R3 shows nothing else can be made outside)", "a terminal applies ESC[0m as 'all attributes off'"},
 			Rules: []Rule{
 				{ID: "C14.R1", Title: "ansi.Apply adds its style to each character's own unit and closes it", Floor: 3, Run: c14R1},
@@ -48,6 +48,7 @@ func init() {
 				{ID: "C14.R4", Title: "escape bytes occur in constants of package ansi only", Floor: 1, Run: c14R4},
 				{ID: "C14.R5", Title: "every style handed to ansi.Apply starts with a constant, non-resetting SGR code", Floor: 6, Run: c14R5},
 				{ID: "C14.R6", Title: "a match of ansi.expand holds exactly one visible character, so a line feed is always a match of its own and is never styled (same instances as C13.R0)", Floor: 2, Run: c13R0},
+				{ID: "C14.R8", Title: "attributes that show on blanks (underline, strike-through, background) are applied to text, not to the blanks the style layer adds for layout: in package style nothing that comes out of ansi.Indent or ansi.Pad is handed to Underline, Strikethrough, Link or a background colour", Floor: 2, Run: c14R8},
 				{ID: "C14.R7", Title: "the configured colours that end up behind ESC[38;2; are outputs of hexToAnsi: digits and semicolons (same instances as C19.R2)", Floor: 7, Run: c19R2},
 			},
 		}
@@ -831,6 +832,9 @@ func (a *nfa) nfCall(x *ssa.Call) bool {
 					return a.fail(v, "what is written to the builder at %s is not a text in normal form on its own: %s", a.P.InstrPos(call), a.reason(unwrapLoad(call.Call.Args[1])))
 				}
 			case "WriteByte", "WriteRune":
+				if safeTableRune(call.Call.Args[1], 0) {
+					continue // a character out of a constant table that holds no ESC
+				}
 				if k, ok := constInt(call.Call.Args[1]); !ok || k == 0x1b {
 					return a.fail(v, "a computed character is written to the builder at %s", a.P.InstrPos(call))
 				}
@@ -1373,4 +1377,118 @@ func c14R4(c *Ctx) {
 		})
 	}
 	c.check(n > 0 && bad == 0, "servitor/escape-constants", "module", "servitor", fmt.Sprintf("%d constants that start a graphic-rendition escape sequence, all in package ansi", n), fmt.Sprintf("%d of %d constants with an escape byte are outside package ansi (or none found at all)", bad, n))
+}
+
+// safeTableRune: v is read from a package-level table of constant characters
+// (or is one of several constants merged by a switch) none of which is ESC.
+func safeTableRune(v ssa.Value, d int) bool {
+	if d > 4 {
+		return false
+	}
+	switch x := v.(type) {
+	case *ssa.Const:
+		k, ok := constInt(x)
+		return ok && k != 0x1b
+	case *ssa.Phi:
+		for _, e := range x.Edges {
+			if !safeTableRune(e, d+1) {
+				return false
+			}
+		}
+		return len(x.Edges) > 0
+	case *ssa.Convert:
+		return safeTableRune(x.X, d+1)
+	case *ssa.UnOp:
+		if x.Op != token.MUL {
+			return false
+		}
+		ia, ok := x.X.(*ssa.IndexAddr)
+		if !ok {
+			return false
+		}
+		g, _ := ia.X.(*ssa.Global)
+		if g == nil {
+			if ld, ok := ia.X.(*ssa.UnOp); ok && ld.Op == token.MUL {
+				g, _ = ld.X.(*ssa.Global)
+			}
+		}
+		if g == nil {
+			return false
+		}
+		t, _ := globalTable(g)
+		if t == nil {
+			return false
+		}
+		for _, cp := range t {
+			if cp == 0x1b {
+				return false
+			}
+		}
+		return true
+	}
+	return false
+}
+
+// c14R8: the block functions of package style add layout blanks (the hanging
+// indent of a link block or a bullet, the indent of a header) with ansi.Indent
+// and ansi.Pad. A foreground colour or bold over such blanks cannot be seen;
+// an underline, a strike-through or a background colour can: the blanks would
+// be displayed with an attribute that was applied to the text, not to them.
+// Decided by value flow inside package style: no result of ansi.Indent /
+// ansi.Pad reaches the text argument of Underline, Strikethrough, Link,
+// background, Code or Highlight (through concatenation, phis and locals).
+// One obligation per such decorating call in the package.
+func c14R8(c *Ctx) {
+	P := c.P
+	decor := map[string]bool{"Underline": true, "Strikethrough": true, "Link": true, "background": true, "Code": true, "Highlight": true, "CodeBlock": true}
+	var fromLayout func(v ssa.Value, d int, seen map[ssa.Value]bool) string
+	fromLayout = func(v ssa.Value, d int, seen map[ssa.Value]bool) string {
+		if d > 12 || seen[v] {
+			return ""
+		}
+		seen[v] = true
+		switch x := unwrapLoad(v).(type) {
+		case *ssa.Call:
+			if sc := x.Call.StaticCallee(); sc != nil && P.PkgOf(sc) == "servitor/ansi" && (sc.Name() == "Indent" || sc.Name() == "Pad") {
+				return P.InstrPos(x)
+			}
+			// through the style functions themselves (Color(Indent(x)) is still indented text)
+			if sc := x.Call.StaticCallee(); sc != nil && P.PkgOf(sc) == "servitor/style" && len(x.Call.Args) >= 1 && isStringType(x.Call.Args[0].Type()) {
+				return fromLayout(x.Call.Args[0], d+1, seen)
+			}
+			if sc := x.Call.StaticCallee(); sc != nil && P.PkgOf(sc) == "servitor/ansi" && sc.Name() == "Apply" {
+				return fromLayout(x.Call.Args[0], d+1, seen)
+			}
+		case *ssa.BinOp:
+			if x.Op == token.ADD {
+				if w := fromLayout(x.X, d+1, seen); w != "" {
+					return w
+				}
+				return fromLayout(x.Y, d+1, seen)
+			}
+		case *ssa.Phi:
+			for _, e := range x.Edges {
+				if w := fromLayout(e, d+1, seen); w != "" {
+					return w
+				}
+			}
+		}
+		return ""
+	}
+	for _, fn := range P.FuncsIn("servitor/style") {
+		fname := FuncName(fn)
+		eachInstr(fn, func(_ *ssa.BasicBlock, _ int, in ssa.Instruction) {
+			call, ok := in.(*ssa.Call)
+			if !ok {
+				return
+			}
+			sc := call.Call.StaticCallee()
+			if sc == nil || P.PkgOf(sc) != "servitor/style" || !decor[sc.Name()] || len(call.Call.Args) == 0 || !isStringType(call.Call.Args[0].Type()) {
+				return
+			}
+			where := fromLayout(call.Call.Args[0], 0, map[ssa.Value]bool{})
+			c.check(where == "", fname+"/decorates:"+sc.Name(), P.InstrPos(in), fname, "the decorated text holds no layout blanks of the style layer",
+				"the text handed to "+sc.Name()+" contains the blanks added by the layout call at "+where+": indent or padding is displayed underlined / struck through / with a background, attributes that were meant for the text")
+		})
+	}
 }
